@@ -377,8 +377,19 @@ pub fn any_matrix() -> impl Strategy<Value = Mat> {
     })
 }
 
+/// a few checks over 33..=80 variables, at least one of them of degree 33 or more (beyond any lane,
+/// mask or inline-buffer width)
+fn wide_matrix() -> impl Strategy<Value = Mat> {
+    (1usize..=5, 33usize..=80).prop_flat_map(|(r, n)| {
+        (subset(n, 33..=n), proptest::collection::vec(prop_oneof![2 => subset(n, 0..=3), 1 => subset(n, 0..=n)], r - 1)).prop_map(move |(dense, mut rows)| {
+            rows.insert(rows.len() / 2, dense);
+            Mat::from_rows(r, n, &rows)
+        })
+    })
+}
+
 fn case_strategy(_t: Tier) -> BoxedStrategy<Case> {
-    any_matrix()
+    prop_oneof![24 => any_matrix().boxed(), 1 => wide_matrix().boxed()]
         .prop_flat_map(|h| {
             let n = h.cols;
             let llr = || prop_oneof![4 => proptest::collection::vec(any_llr(), n), 2 => super::decgen::llr_vector(&h)];
@@ -425,6 +436,19 @@ fn check_reference(case: &Case, p: &mut Probe) -> Check {
                 compare(&format!("layered/{} call {ci}", $name), &got, &want, *limit, sign_ok)?;
                 max_it = max_it.max(match &want { Ok(o) => o.iterations, Err(o) => o.iterations });
                 p.inner += 2;
+                // "unlimited": a converged call repeated with an iteration limit near the top of the
+                // usize range returns the same result (the textbook schedule stops at convergence)
+                if want.is_ok() && (ci + case.emit as usize) % 3 == 0 {
+                    let huge = [usize::MAX, usize::MAX - 1, isize::MAX as usize, 1usize << 32][(ci + case.limit) % 4];
+                    let want_f = ref_flooding(&mut $refarith, &case.h, llrs, *limit);
+                    if want_f.is_ok() {
+                        let got = guarded(|| fl.decode(llrs, huge)).map_err(|e| Fail::new("panic", format!("flooding/{} call {ci} repeated with limit {huge}: panicked: {e}", $name)))?;
+                        compare(&format!("flooding/{} call {ci} repeated with limit {huge}", $name), &got, &want_f, huge, sign_ok)?;
+                    }
+                    let got = guarded(|| la.decode(llrs, huge)).map_err(|e| Fail::new("panic", format!("layered/{} call {ci} repeated with limit {huge}: panicked: {e}", $name)))?;
+                    compare(&format!("layered/{} call {ci} repeated with limit {huge}", $name), &got, &want, huge, sign_ok)?;
+                    p.class("converged-call-repeated-with-huge-limit");
+                }
             }
         }};
     }
@@ -433,6 +457,7 @@ fn check_reference(case: &Case, p: &mut Probe) -> Check {
     one!(IntMinSum(case.emit), IntMinSum(0), "IntMinSum");
     one!(FreeAlgebra(case.emit), FreeAlgebra(0), "FreeAlgebra");
     p.class_if(case.emit % 4 != 0, "emission-order-permuted");
+    p.class_if(case.h.row_lists().iter().any(|r| r.len() >= 33), "check-degree>=33");
     let deg2 = case.h.col_lists().iter().any(|c| c.len() >= 2);
     p.class_if(max_it >= 3, "iterations>=3");
     p.class_if(max_it >= 2, "iterations>=2");
@@ -576,6 +601,41 @@ fn forest_strategy(_t: Tier) -> BoxedStrategy<ForestCase> {
                     next += 1;
                     continue;
                 }
+                let a = placed[idx(attach, placed.len())];
+                let k = newc.min(nv - next);
+                let mut row = vec![a];
+                for _ in 0..k {
+                    row.push(order[next]);
+                    placed.push(order[next]);
+                    next += 1;
+                }
+                rows.push(row);
+            }
+            let r = rows.len();
+            ForestCase { h: Mat::from_rows(r, nv, &rows), llrs: llrs.into_iter().map(Fx).collect() }
+        })
+        .boxed()
+}
+
+/// forests with one check of high degree (13..=70 variables in one check, beyond any lane, mask or
+/// batch width), further small checks attached as in `forest_strategy`
+fn star_strategy(_t: Tier) -> BoxedStrategy<ForestCase> {
+    (13usize..=70, 0usize..=10)
+        .prop_flat_map(|(hub, more)| {
+            let nv = hub + more;
+            (Just((hub, nv)), Just((0..nv).collect::<Vec<usize>>()).prop_shuffle(), proptest::collection::vec((any::<u16>(), 1usize..=3), more.max(1)), proptest::collection::vec(-4.0f64..4.0, nv), proptest::option::weighted(0.33, any::<u16>()))
+        })
+        .prop_map(|((hub, nv), order, steps, mut llrs, erase)| {
+            if let Some(a) = erase {
+                llrs[idx(a, nv)] = 0.0;
+            }
+            let mut rows: Vec<Vec<usize>> = vec![order[..hub].to_vec()];
+            let mut placed: Vec<usize> = order[..hub].to_vec();
+            let mut next = hub;
+            let mut si = 0;
+            while next < nv {
+                let (attach, newc) = steps[si % steps.len()];
+                si += 1;
                 let a = placed[idx(attach, placed.len())];
                 let k = newc.min(nv - next);
                 let mut row = vec![a];
@@ -766,10 +826,14 @@ fn check_forest(case: &ForestCase, p: &mut Probe) -> Check {
     }
     let g = Graph::from_mat(&h);
     ensure!(g.girth().is_none(), "generator", "generated graph is not a forest");
-    let post = posteriors(&h, &llrs);
     // own sum-product to the fixed point: must reproduce the brute-force posteriors (self-check of
     // the oracle) and supplies the conditioning of the worst edge for the tolerance
     let (own, unit) = own_bp(&h, &llrs);
+    // codes of dimension above 14 (a check of high degree) are not enumerated: the own sum-product,
+    // exact on a forest and validated against the enumeration on every smaller case, is the oracle
+    let enumerate = h.cols - h.rows <= 14;
+    p.class_if(!enumerate, "oracle-own-sum-product");
+    let post = if enumerate { posteriors(&h, &llrs) } else { own.clone() };
     for v in 0..h.cols {
         if (own[v] - post[v]).abs() > 1e-9 * (1.0 + post[v].abs()) + 64.0 * f64::EPSILON * unit * (h.set().len() as f64 + 1.0) {
             return Err(Fail::new(INCONCLUSIVE, format!("oracle self-check failed: own sum-product gives {} for variable {v}, enumeration of all codewords gives {}", own[v], post[v])));
@@ -801,7 +865,7 @@ pub fn property() -> Property {
         subs: vec![
             Box::new(Sub {
                 name: "reference",
-                rule: "generated (H, LLR, limit): H 1..=8 x 1..=12 with arbitrary rows (degree-0 and degree-1 checks and isolated variables allowed), LLRs from the C01 catalogue, limits {0,1,2,3,6,20,60}, 1..=3 calls on the same decoder object (each compared with the stateless reference); flooding::Decoder<A> and horizontal_layered::Decoder<A> with the checker's exact integer min-sum (wrapping i64) and free hash-term algebra (order-independent, separates routing/initialisation/staleness) against an own edge-map interpreter of the two textbook schedules: identical (verdict, word, iterations), also for limit 0 on a non-codeword (word = the arithmetic's hard decisions of the quantised channel LLRs); non-trivial = >= 2 iterations executed and a variable of degree >= 2; inner = decoder runs compared",
+                rule: "generated (H, LLR, limit): H 1..=8 x 1..=12 (one case in 25: 1..=5 x 33..=80 with a check of degree >= 33) with arbitrary rows (degree-0 and degree-1 checks and isolated variables allowed), LLRs from the C01 catalogue, limits {0,1,2,3,6,20,60} (a third of the converged calls repeated with limit usize::MAX, usize::MAX-1, isize::MAX or 2^32 and compared again), 1..=3 calls on the same decoder object (each compared with the stateless reference); flooding::Decoder<A> and horizontal_layered::Decoder<A> with the checker's exact integer min-sum (wrapping i64) and free hash-term algebra (order-independent, separates routing/initialisation/staleness) against an own edge-map interpreter of the two textbook schedules: identical (verdict, word, iterations), also for limit 0 on a non-codeword (word = the arithmetic's hard decisions of the quantised channel LLRs); non-trivial = >= 2 iterations executed and a variable of degree >= 2; inner = decoder runs compared",
                 cases: |t| t.pick(300_000, 10_000_000),
                 strategy: case_strategy,
                 check: check_reference,
@@ -822,6 +886,14 @@ pub fn property() -> Property {
                 strategy: forest_strategy,
                 check: check_forest,
                 health: &[("depth>=2", 0.50)],
+            }),
+            Box::new(Sub {
+                name: "exactness-high-degree",
+                rule: "forests with one check of degree 13..=70 and up to ten further variables on small checks, the same gadget, channel LLRs and tolerance; the code dimension is too large to enumerate, so the oracle is the own sum-product run (exact on a forest; the same routine is checked against the enumeration of all codewords in every case of the 'exactness' sub-check)",
+                cases: |t| t.pick(1_500, 100_000),
+                strategy: star_strategy,
+                check: check_forest,
+                health: &[],
             }),
         ],
         assumptions: vec![
